@@ -47,6 +47,38 @@ Theorem c19_agent_replace : forall n a, NoDup (map e_blob a) -> e_cert n = true 
 Proof. exact agent_replace. Qed.
 Print Assumptions c19_agent_replace.
 
+(* the same against an agent that may refuse ANY of the calls (List, the k-th Remove for every k,
+   Add; a refused call has no effect): if the installation reports success, exactly one certificate
+   carries the label and the agent is what the fault-free installation leaves; if it reports an
+   error, nothing was added and nothing but certificates with that label was removed. *)
+Theorem c19_agent_replace_faulty : forall f n a, NoDup (map e_blob a) -> e_cert n = true ->
+  let c := e_comment n in let r := upsert_faulty f n a in
+  (snd r = true -> filter (is_dup c) (fst r) = [n] /\ fst r = upsert n a) /\
+  (snd r = false -> (forall e, In e (fst r) -> In e a) /\ (forall e, In e a -> is_dup c e = false -> In e (fst r))).
+Proof. exact agent_replace_faulty. Qed.
+Print Assumptions c19_agent_replace_faulty.
+
+(* a clean-up whose error is ignored ("best effort") reports success with the stale certificate still there *)
+Theorem c19_best_effort_cleanup_refuted : exists f n a, NoDup (map e_blob a) /\ e_cert n = true /\
+  let r := upsert_best_effort f n a in snd r = true /\ filter (is_dup (e_comment n)) (fst r) <> [n].
+Proof.
+  exists (mkFaults false (fun k => Nat.eqb k 0) false), ex_new, [ex_old].
+  split; [repeat constructor; simpl; tauto|]. split; [reflexivity|].
+  vm_compute. split; [reflexivity|discriminate].
+Qed.
+Print Assumptions c19_best_effort_cleanup_refuted.
+
+(* key files: whatever was at the path before (nothing, a file of ANY mode) and whatever the umask,
+   the private-key file is not accessible to group or others afterwards *)
+Theorem c19_private_file_mode : forall existing umask, others_bits (write_private existing umask) = 0%N.
+Proof. exact private_file_mode. Qed.
+Print Assumptions c19_private_file_mode.
+
+(* before the fix (a plain WriteFile(path, key, 0600)) a file that was already there kept its mode *)
+Theorem c19_old_existing_mode_refuted : exists existing umask, others_bits (write_file existing umask 384) <> 0%N.
+Proof. exists (Some 420%N), 18%N. exact plain_write_keeps_mode. Qed.
+Print Assumptions c19_old_existing_mode_refuted.
+
 (* offered ⊆ accepted, in terms of its parts; Obl_C19 closes offered_all_accepted = true over the
    alternatives of the server's pattern and the client's RSA size regenerated from the source *)
 Theorem c19_offered_accepted_spec : forall alts rsa_bits, offered_all_accepted alts rsa_bits = true ->
